@@ -5,9 +5,10 @@ PROPERTY = "C03"
 STATEFUL = True
 READY = True
 THEOREMS = ["C03.recCheck_iff", "C03.accepted_no_cycle", "C03.user_cycle_iff", "C03.accepted_user_acyclic",
-            "C03.rejected_user_cyclic", "C03.ctor_recursive_iff", "C03.nullables_total", "C03.ctor_recursive_hyps_met",
-            "C03.ctor_recursive_iff_templates", "C03.accepted_user_acyclic_templates", "C03.stack_bound", "C03.stack_bound_parse",
-            "C03.run_terminates", "C03.parse_terminates", "C03.parse_total", "C03.templates_total", "C03.parse_from_total"]
+            "C03.rejected_user_cyclic", "C03.later_stages_total", "C03.ctor_recursive_iff", "C03.nullables_total", "C03.ctor_recursive_hyps_met",
+            "C03.ctor_recursive_iff_templates", "C03.ctor_grammarError_templates", "C03.accepted_user_acyclic_templates", "C03.stack_bound", "C03.stack_bound_parse",
+            "C03.run_terminates", "C03.parse_terminates", "C03.parse_total", "C03.templates_total", "C03.parse_from_total",
+            "C03.parse_from_total_templates"]
 RULE = ("one case = one generated grammar (unbiased / mostly non-left-recursive / shaped / LL(1)-ish / hidden-recursion / DFS-bookkeeping "
         "generators, names permuted; 15 % grammars with ProdSequence / ListProds / MapProds keys incl. nullable members and items and recursion THROUGH the "
         "templates in both directions - items / members that start with the container again (a cycle unless brackets consume a "
@@ -20,7 +21,7 @@ RULE = ("one case = one generated grammar (unbiased / mostly non-left-recursive 
         "object for every 40th accepted grammar), constructed with smart_factorization True and False, each followed by every token "
         "string up to the tier's length plus sampled sentences; the real constructor and parse run under a line-event "
         "budget (sys.settrace); non-trivial = at least one tree and one ParsingError, or the reference test says "
-        "left-recursive; distinct by protocol text")
+        "left-recursive; distinct by protocol text; round 8 dimensions: 4 token configurations whose patterns have CONTEXT assertions (`^`, look-behind, \\b; every lexeme rendered at line starts, behind blanks and glued to its neighbour; str and list-of-lines input), ProdSequence templates with an AnyTokenExcept member at the first / a middle / the last position of the argument list (tag seqax), ListProds without delimiter with and without brackets, item nullable or not (tag nodelim), cycles of 1-3 symbols none of which has a base case - token-tailed or epsilon-only, referred to or not, start symbol inside or outside - and their non-recursive twins (generator nobase), long inputs also for containers (sequence, sequence with AnyTokenExcept, 3 list forms, map) of 150 / 990..1100 / 2000 / 5000 items, each long text parsed with do_cleanup=False AND with the default do_cleanup=True when the derivation tree is at most 250 levels deep (tag cleanup:long)")
 TRUSTED = ["re (lexemes are found by the harness with the tokenizer's own pattern)",
            "sys.settrace. Observable of 'parse grows its stack without bound / never returns': the depth of the parse stack at "
            "every push is compared with (len(text)+2) * (keys + terminals + 3). C03.stack_bound_parse proves a bound "
@@ -33,7 +34,23 @@ TRUSTED = ["re (lexemes are found by the harness with the tokenizer's own patter
 ASSUMPTIONS = ["'GrammarIsRecursive is raised exactly when ...' is a theorem at the level of the recursion check and of the user's "
                "dictionary (C03.recCheck_iff + C03.user_cycle_iff: cycle of the factorised dictionary <=> cycle of the user's "
                "productions w.r.t. their least nullable set) and of the constructor (C03.ctor_recursive_iff, with the success of "
-               "the earlier stages as explicit hypotheses: their failures are other exception classes)",
+               "the stages that raise OTHER exception classes as explicit hypotheses: terminal names / _create_productions / "
+               "factorisation asserts -> AssertionError, skip set / part-1 structure check -> GrammarError; the stages between part 1 and "
+               "the recursion check - nullables, FIRST, FOLLOW, table - are proved unable to fail, C03.later_stages_total)",
+               "template dictionaries: the driver executes LL.constructGN nonull T - the productions the templates generate (T) and the "
+               "item symbols of the ListProds templates without delimiter (nonull, 4th part of the `T=` field) are data supplied by "
+               "the harness; the stage ListProds.verify_grammar (delimiter-less list with a nullable item -> GrammarError, raised after "
+               "_get_nullables and BEFORE the table and the recursion check) is modelled (LL.verifyTemplates) and "
+               "C03.ctor_recursive_iff_templates has its success as hypothesis hVT; C03.ctor_grammarError_templates is the other branch. "
+               "The property's 'GrammarIsRecursive exactly when left recursive' therefore reads, for such a list: GrammarError wins",
+               "the totality theorems ('returns a tree or raises ParsingError', termination, stack bound) are about the RAW parse "
+               "(do_cleanup=False). The default parse(text) then runs the clean-up, a recursive walk over the returned tree outside the "
+               "model (the list / map tail walk is iterative since /repo 2cdb1cb, the general descent is not): for trees nested deeper "
+               "than CPython's recursion limit allows (a few hundred levels) the default call can end in RecursionError although the "
+               "raw parse returned a tree; default-cleanup calls (`px c`, compared as 'a result is returned') are issued on short inputs and on the long ones "
+               "- containers of 150 / 990..1100 / 2000 / 5000 items, user-written right recursion of 150 tokens - but ONLY when the "
+               "derivation tree of the user's grammar (a container = one node) is at most 250 levels deep; on deeper trees a "
+               "RecursionError of the default call is CPython's resource limit and is neither generated nor judged",
                "an alternative given as None is the empty alternative and AnyTokenExcept(*names) is the list of its one-token "
                "alternatives when the model sees them (protocol `!` / field AX=); the harness expands AnyTokenExcept itself: the "
                "SET of tokens is the reference's (token groups - synonym sources + synonym and keyword targets), only the order "
@@ -62,7 +79,13 @@ def oracle(case, replies):
                 return "constructor-does-not-terminate: budget of %d line events exceeded (smart=%s)" % (BUDGET, smart)
             if ll.clean(spec):
                 ref = ll.left_rec(ctx["g"])
-                if ref and rep != "err GrammarIsRecursive":
+                # a ListProds without delimiter whose item is nullable: the template's own verify_grammar stage raises
+                # GrammarError BEFORE the recursion check (such a list is always left recursive); both classes are accepted by
+                # the oracle (the correspondence demands the model's answer, LL.constructGN: GrammarError)
+                nul = ll.nullable_set(ctx["g"])
+                early = any(td["t"] == "list" and td["args"][2] is None and td["args"][1] in nul
+                            for td in spec.get("tdefs", {}).values())
+                if ref and rep != "err GrammarIsRecursive" and not (early and rep == "err GrammarError"):
                     return "missed-recursion: a symbol reaches itself without consuming a token, constructor says %r (smart=%s)" % (rep, smart)
                 if not ref and rep == "err GrammarIsRecursive":
                     return "false-alarm: no symbol reaches itself without consuming a token, GrammarIsRecursive raised (smart=%s)" % smart
@@ -90,7 +113,11 @@ def oracle(case, replies):
 
 
 def gen_cases(rng, tier):
-    yield from ll.gen_long_cases(rng, (150, 700))
+    if tier == "quick":     # (every line of the real parser is traced here: fewer containers, no 5000-item input)
+        yield from ll.gen_long_cases(rng, (150, 700), item_sizes=(rng.randint(990, 1100),), big=False,
+                                     shapes=("rec-a", "rec-item", "rec-pair", "rec-nest", "list-delim", "map"))
+    else:
+        yield from ll.gen_long_cases(rng, (150, 700))
     yield from ll.gen_layered_cases(rng, per_level=1 if tier == "quick" else 4)
     if tier == "quick":
         for i, c in enumerate(ll.gen_ll_cases(rng, 1400, 3, sentences=12, hidden_share=0.22, dfs_share=0.18, tmpl_share=0.15,
@@ -124,16 +151,23 @@ LEVEL_TEXT = ("Kernel-checked on the executable model, for ALL grammars and inpu
               "GrammarIsRecursive iff some symbol of the (factorised) dictionary reaches itself behind nullables, for every "
               "visiting order / assignment of names, and never anything else (C03.recCheck_iff), and that holds iff the "
               "productions the user wrote are left recursive (C03.user_cycle_iff, accepted_user_acyclic, "
-              "rejected_user_cyclic). At the level of the constructor the iff (C03.ctor_recursive_iff) is CONDITIONAL on the success "
-              "of all other stages (terminal names, skip set, _create_productions, factorisation, part-1 checks, nullables, FIRST, "
-              "FOLLOW, table - their failures are other exceptions); these hypotheses are satisfiable and hold whenever the "
-              "constructor returns a parser (C03.ctor_recursive_hyps_met, C03.nullables_total), so 'accepted => not left recursive' "
-              "is unconditional while 'left recursive => GrammarIsRecursive' assumes the other stages do not fail first. The same "
-              "iff through the template expansion: C03.ctor_recursive_iff_templates / accepted_user_acyclic_templates (cycle of "
-              "the EXPANDED dictionary; the expansion itself is data, C05's subject). Every accepted grammar "
+              "rejected_user_cyclic). At the level of the constructor the iff (C03.ctor_recursive_iff) is conditional ONLY on the stages "
+              "that raise other exception classes (terminal names, skip set, _create_productions, factorisation, part-1 structure "
+              "check): nullables, FIRST, FOLLOW and the table are proved unable to fail once part 1 passed "
+              "(C03.later_stages_total, C03.nullables_total); the remaining hypotheses are satisfiable and hold whenever the "
+              "constructor returns a parser (C03.ctor_recursive_hyps_met), so 'accepted => not left recursive' "
+              "is unconditional while 'left recursive => GrammarIsRecursive' assumes no AssertionError / GrammarError stage fails first. The same "
+              "iff through the template expansion for the constructor the driver executes (LL.constructGN: generated productions "
+              "and delimiter-less list items as data + the templates' verify_grammar stage): C03.ctor_recursive_iff_templates / "
+              "accepted_user_acyclic_templates (cycle of the EXPANDED dictionary; the expansion itself is data, C05's subject), with "
+              "the extra hypothesis that ListProds.verify_grammar passes; when it does not (delimiter-less list, nullable item) the "
+              "constructor raises GrammarError before the recursion check (C03.ctor_grammarError_templates) although the expanded "
+              "grammar is left recursive - the model follows the code there. Every accepted grammar "
               "terminates on every token list, returns a tree or raises ParsingError, never IndexError (C03.parse_terminates, "
               "C03.parse_total; with an explicit start symbol C03.parse_from_total) and its stack stays below (|tokens|+1)*B "
-              "(C03.stack_bound_parse) - no assumption on the input. "
+              "(C03.stack_bound_parse; C03.templates_total for template dictionaries) - no assumption on the input. These are "
+              "statements about the raw parse (do_cleanup=False); the default clean-up is a recursive tree walk outside the model, "
+              "bounded by CPython's recursion limit for trees deeper than a few hundred levels (see ASSUMPTIONS). "
               "model = code: constructor outcome and parse results compared on generated grammars (names permuted, hidden-"
               "recursion shapes) with the real constructor and parse under a line-event budget; the pre-fix tree 59c8825~1 is "
               "reported as a VIOLATION by oracle and correspondence.")
